@@ -1,6 +1,6 @@
 from ..props import prop
 
-# Eleven random-workload drivers plus the witness driver (one translation unit each) so that they compile in parallel; every driver shares drivers/c17/typed.hpp.
+# Twelve random-workload drivers plus the witness driver (one translation unit each) so that they compile in parallel; every driver shares drivers/c17/typed.hpp.
 # -g1 keeps line tables for sanitizer reports and drops variable tracking (the drivers are template-heavy: ~30 types x 5 formats each).
 _XF = "-g1"
 
@@ -29,6 +29,9 @@ prop("C17", level="exploration",
                 "Every t is executed under ASan+UBSan through both routes in JSON text, CBOR, MessagePack, UBJSON and BSON: (1) decode_F<T>(encode_F(t)) == t; (2) json j(t), j.as<T>() == t, decode_F<T>(encode_F(j)) == t; "
                 "(3) encode_F(t) and encode_F(j), both decoded to basic_json by the same decoder, are structurally equal ignoring member order (strict comparer, not operator==); (4) try_encode_F / try_decode_F<T> / try_as<T> "
                 "agree with the throwing variants; stage 'overloads' repeats this for one representative type per decode_traits/encode_traits path through the std::ostream / std::istream / iterator-range overloads. "
+                "Stage 'transform': one class per *_NAME_TRAITS macro family (ALL/N x MEMBER_NAME / CTOR_GETTER_NAME / GETTER_SETTER_NAME) whose members use the long member form (name, mode, match, into, from): a struct <-> string "
+                "Into/From pair on a mandatory member and, in the N_ families, on an optional member, a match predicate (valid levels 0..9) and a JSONCONS_RDONLY tag member with a match predicate; all common checks, plus the damage "
+                "'match-rejected-value' (a string the From function maps to a value that the match predicate must refuse). "
                 "Stage 'crosselem': a vector<S> (S in int8..int32, uint8..uint32, float, half; boundary-biased elements) is encoded as CBOR with typed arrays on and off, MessagePack, UBJSON and BSON and decoded into "
                 "vector<D> for every wider element type D that represents all values of S exactly, through decode_X<vector<D>> from bytes and from a stream (typed-array fast paths) and through "
                 "decode_X<json>(bytes).as<vector<D>>(): all must equal the element-wise conversion of the source (signature typed/cross-element-type/<format>/<route>/<S>-to-<D>). "
@@ -67,6 +70,6 @@ prop("C17", level="exploration",
                   "documented per-format restrictions transcribed in fmt_domain() / rt_bson() of drivers/c17/typed.hpp",
                   "the C17_SHARED_REV static_assert in the drivers is a leftover of the time when the build cache did not hash drivers/c17/*; it no longer needs bumping"],
      stages=[_st("scalars", 200000), _st("special", 144000), _st("wide", 80000), _st("variants", 128000), _st("sequences", 112000), _st("fixed", 96000), _st("maps", 112000),
-             _st("classes", 64000), _st("poly", 40000), _st("overloads", 96000), _st("crosselem", 70000),
+             _st("classes", 64000), _st("poly", 40000), _st("overloads", 96000), _st("crosselem", 70000), _st("transform", 40000),
              dict(name="witnesses", driver="c17_witness", flagset="asan", extra_flags=_XF, quick=N_WITNESSES, thorough=N_WITNESSES, args=["--mode", "witnesses"],
                   workers_quick=1, workers_thorough=1)])
